@@ -351,6 +351,9 @@ class isoparser(object):
 
             if timestr[pos:pos + 1] in b'-+Zz':
                 # Detect time zone boundary
+                if comp == 0:
+                    raise ValueError('Time zone offset without a time')
+
                 components[-1] = self._parse_tzstr(timestr[pos:])
                 pos = len_str
                 break
